@@ -184,7 +184,7 @@ def reject_case(draw):
     nd = len(g["n"])
     kind = draw(st.sampled_from(["point-outside", "index-out", "index-arity", "point-arity",
                                  "index-type", "point-type", "one-bad-element", "constructor", "tolerance-band",
-                                 "tolerance-band"]))
+                                 "tolerance-band", "point-nonfinite"]))
     if kind == "tolerance-band":
         # a region with its own comparison tolerance, close to the origin (the band must be resolvable in floating point)
         g = draw(gen.geom(nmax=6, exps=(-9, 3), big_offsets=False))
@@ -202,6 +202,11 @@ def reject_case(draw):
         c["axis"] = draw(st.integers(0, nd - 1))
     if kind == "constructor":
         c["what"] = draw(st.sampled_from(["n-and-cell", "neither", "region-and-p1", "only-p1", "nothing", "region-type"]))
+    if kind == "point-nonfinite":
+        c["probe"] = draw(gen.probe_spec(g["n"], ("c", "f")))
+        c["axis"] = draw(st.integers(0, nd - 1))
+        c["what"] = draw(st.sampled_from(["inf", "-inf", "nan"]))
+        c["how"] = draw(st.sampled_from(["tuple", "list", "array", "numpy-scalars"]))
     if kind == "point-outside":
         spec = draw(gen.probe_spec(g["n"], ("c", "f", "v")))
         ax = draw(st.integers(0, nd - 1))
@@ -253,6 +258,14 @@ def check_reject(case):
         require(not (tuple(p) in region), "contains-outside", f"{p} reported inside")
         _expect_raise(lambda: mesh.point2index(tuple(p)), (ValueError, IndexError), "outside-accepted",
                       f"point {p}")
+    elif kind == "point-nonfinite":
+        # an infinite or undefined coordinate is in no cell: not in the region, refused by point2index
+        p = [float(x) for x in lat.point(case["probe"])]
+        p[case["axis"]] = float(case["what"])
+        spelt = {"tuple": tuple(p), "list": list(p), "array": np.array(p), "numpy-scalars": tuple(np.float64(x) for x in p)}[case["how"]]
+        with np.errstate(all="ignore"):
+            require(not (spelt in region), "contains-nonfinite", f"{p} reported inside")
+            _expect_raise(lambda: mesh.point2index(spelt), (ValueError, IndexError), "nonfinite-accepted", f"point {p}")
     elif kind in ("index-out", "index-arity"):
         if len(case["index"]) == 0:
             from pbt.core import Reject
@@ -630,7 +643,77 @@ def check_spellings(case):
     require(all(isinstance(i, int) for i in base), "point2index-python-ints", f"{[type(i).__name__ for i in base]}")
 
 
+# --------------------------------------------------------------------------- methods that read never write
+
+
+@st.composite
+def pure_case(draw):
+    # subregions: scales 1e-9 ... 1 only (the alignment tolerance is an absolute 1e-12, DESIGN section 6)
+    g = draw(gen.geom(nmax=5, exps=(-9, 0), big_offsets=False, maxcells=200, tol=False))
+    return {"g": g, "subs": draw(gen.index_boxes(g["n"], 2)), "seed": draw(st.integers(0, 2**31)),
+            "order": draw(st.permutations(range(14)))}
+
+
+def _mesh_snapshot(m):
+    r = m.region
+    return (r.pmin.tobytes(), r.pmax.tobytes(), str(r.pmin.dtype), tuple(r.dims), tuple(r.units), r.tolerance_factor,
+            np.asarray(m.n).tobytes(), str(np.asarray(m.n).dtype), m.bc,
+            tuple((k, v.pmin.tobytes(), v.pmax.tobytes()) for k, v in m.subregions.items()))
+
+
+def check_pure(case):
+    """every public method of a mesh that returns something new (a transformed copy, a Fourier-space mesh, a sub-mesh,
+    a table of points) leaves the mesh itself - corners, cell counts, names, subregions - bit-identical, does so on a
+    second call, too, and returns the same thing on the second call.  The lattice facts of this property are facts about
+    an object the user still holds."""
+    g = case["g"]
+    lat = gen.lattice_of(g)
+    nd = lat.ndim
+    mesh = gen.build_mesh(g, subs=case["subs"])
+    dims = list(mesh.region.dims)
+    snap = _mesh_snapshot(mesh)
+    centre = [float(x) for x in lat.point([["c", k // 2] for k in g["n"]])]
+    kmesh_r = mesh.fftn(rfft=True)
+    kmesh_c = mesh.fftn()
+    ksnap_r, ksnap_c = _mesh_snapshot(kmesh_r), _mesh_snapshot(kmesh_c)
+
+    def same(a, b):
+        if hasattr(a, "region") and hasattr(a, "n"):
+            return _mesh_snapshot(a) == _mesh_snapshot(b)
+        if hasattr(a, "pmin"):
+            return a.pmin.tobytes() == b.pmin.tobytes() and a.pmax.tobytes() == b.pmax.tobytes()
+        if hasattr(a, "array"):
+            return np.array_equal(a.array, b.array)
+        if isinstance(a, (list, tuple)):
+            return len(a) == len(b) and all(np.array_equal(np.asarray(x), np.asarray(y)) for x, y in zip(a, b))
+        return np.array_equal(np.asarray(a), np.asarray(b))
+
+    calls = [
+        ("fftn", lambda: mesh.fftn()), ("rfftn", lambda: mesh.fftn(rfft=True)),
+        ("k.ifftn", lambda: kmesh_c.ifftn()), ("k.irfftn", lambda: kmesh_r.ifftn(rfft=True)),
+        ("k.irfftn-shape", lambda: kmesh_r.ifftn(rfft=True, shape=tuple(int(i) for i in mesh.n))),
+        ("translate", lambda: mesh.translate([1.0] * nd)), ("scale", lambda: mesh.scale(2.0)),
+        ("rotate90", lambda: mesh.rotate90(dims[0], dims[-1]) if nd > 1 else mesh.scale(1.0)),
+        ("pad", lambda: mesh.pad({dims[0]: (1, 2)})), ("sel", lambda: mesh.sel(dims[0]) if nd > 1 else mesh[mesh.region]),
+        ("sel-range", lambda: mesh.sel(**{dims[0]: (float(lat.pmin[0]), centre[0])})),
+        ("getitem", lambda: mesh[mesh.region]), ("coordinate_field", lambda: mesh.coordinate_field()),
+        ("tables", lambda: [np.asarray(c) for c in mesh.cells] + [np.asarray(v) for v in mesh.vertices]),
+    ]
+    for j in case["order"]:
+        name, fn = calls[j]
+        first = fn()
+        for who, m_, s_ in (("the mesh", mesh, snap), ("the rfft k-mesh", kmesh_r, ksnap_r), ("the k-mesh", kmesh_c, ksnap_c)):
+            if _mesh_snapshot(m_) != s_:
+                raise Violation(f"reader-modifies-mesh:{name}", f"{name} changed {who}: n={m_.n} region={m_.region}")
+        second = fn()
+        if not same(first, second):
+            raise Violation(f"second-call-differs:{name}", f"{name} returns something else when called again")
+        tag("call:" + name)
+    require(np.array_equal(mesh.n, g["n"]), "n-changed", f"{mesh.n} vs {g['n']}")
+
+
 SUBS = [
+    Sub("pure-methods", check_pure, pure_case(), nontrivial=nontrivial, quick=150, thorough=1500),
     Sub("after-mutation", check_after_mutation, mutated_case(), nontrivial=nontrivial, quick=400, thorough=2500),
     Sub("lattice", check_lattice, lattice_case(), nontrivial=nontrivial, quick=400, thorough=3000),
     Sub("lattice-enum", check_lattice, enum=enum_small, nontrivial=nontrivial),
